@@ -341,7 +341,8 @@ def _canonicalise_attr_loops(tree):
                 name_args = [c.args[1] for b in st.body for c in ast.walk(b) if isinstance(c, ast.Call) and isinstance(c.func, ast.Name)
                              and c.func.id in ("getattr", "setattr", "hasattr") and len(c.args) >= 2 and not c.keywords]
                 flow = any(isinstance(n, (ast.Break, ast.Continue, ast.Return)) for b in st.body for n in ast.walk(b))
-                if uses and all(any(u is a for a in name_args) for u in uses) and not flow:
+                keys = [n.slice for b in st.body for n in ast.walk(b) if isinstance(n, ast.Subscript)]     # d[name]: a constant key per iteration
+                if uses and any(any(u is a for a in name_args) for u in uses) and all(any(u is a for a in name_args + keys) for u in uses) and not flow:
                     for e in st.iter.elts:
                         for b in st.body:
                             nb = copy.deepcopy(b)
@@ -431,10 +432,53 @@ def _canonicalise_attr_loops(tree):
                 count += 1
             return c
 
+    def local_kwargs_dicts(fn):
+        """`opts = dict(a=x, b=y)` / `opts = {"a": x, "b": y}` bound once and read only as `**opts` in calls is put back into those calls (`f(**opts)` -> `f(a=x, b=y)`):
+        collecting keyword arguments under a name before passing them does not change what is passed"""
+        nonlocal count
+        stores, loads, stars = {}, {}, {}
+        for n in ast.walk(fn):
+            if isinstance(n, ast.Name):
+                if isinstance(n.ctx, ast.Load):
+                    loads[n.id] = loads.get(n.id, 0) + 1
+                else:
+                    stores[n.id] = stores.get(n.id, 0) + 1
+            elif isinstance(n, ast.Call):
+                for k in n.keywords:
+                    if k.arg is None and isinstance(k.value, ast.Name):
+                        stars[k.value.id] = stars.get(k.value.id, 0) + 1
+        params = {a.arg for a in fn.args.args + fn.args.kwonlyargs + fn.args.posonlyargs} | ({fn.args.kwarg.arg} if fn.args.kwarg else set())
+        for owner in ast.walk(fn):
+            for fld in ("body", "orelse", "finalbody"):
+                blk = getattr(owner, fld, None)
+                if not (isinstance(blk, list) and blk and isinstance(blk[0], ast.stmt)):
+                    continue
+                for st in list(blk):
+                    if not (isinstance(st, ast.Assign) and len(st.targets) == 1 and isinstance(st.targets[0], ast.Name)):
+                        continue
+                    v, d = st.targets[0].id, st.value
+                    isdict = (isinstance(d, ast.Dict) and d.keys and all(isinstance(x, ast.Constant) and isinstance(x.value, str) and x.value.isidentifier() for x in d.keys)) or \
+                        (isinstance(d, ast.Call) and isinstance(d.func, ast.Name) and d.func.id == "dict" and not d.args and d.keywords and all(kk.arg for kk in d.keywords))
+                    if not isdict or v in params or stores.get(v, 0) != 1 or not stars.get(v) or loads.get(v, 0) != stars[v]:
+                        continue
+                    for c in ast.walk(fn):
+                        if isinstance(c, ast.Call):
+                            for k in c.keywords:
+                                if k.arg is None and isinstance(k.value, ast.Name) and k.value.id == v:
+                                    k.value = copy.deepcopy(d)
+                    blk.remove(st)
+                    count += 1
+
     for fn in ast.walk(tree):
         if isinstance(fn, (ast.FunctionDef, ast.AsyncFunctionDef)):
             local_name_tuples(fn)
     ExpandDictComp().visit(tree)
+    before = count
+    for fn in ast.walk(tree):
+        if isinstance(fn, (ast.FunctionDef, ast.AsyncFunctionDef)):
+            local_kwargs_dicts(fn)
+    if count != before:
+        ExpandDictComp().visit(tree)
     for fn in ast.walk(tree):
         if isinstance(fn, (ast.FunctionDef, ast.AsyncFunctionDef)):
             fn.body = unroll(fn.body)
@@ -656,7 +700,7 @@ class Module:
         _canonicalise_comparisons(self.tree)
         self.aliases_canonicalised = 0 if os.environ.get("VERIF_NO_ALIAS_CANON") == "1" else _canonicalise_import_aliases(self.tree)
         self.constants_canonicalised = 0 if os.environ.get("VERIF_NO_CONST_CANON") == "1" else _canonicalise_module_constants(self.tree)
-        self.attr_loops_canonicalised = 0 if (os.environ.get("VERIF_NO_ATTRLOOP_CANON") == "1" or ("getattr" not in src and "setattr" not in src)) \
+        self.attr_loops_canonicalised = 0 if (os.environ.get("VERIF_NO_ATTRLOOP_CANON") == "1" or ("getattr" not in src and "setattr" not in src and "dict(" not in src and "= {" not in src and "={" not in src)) \
             else _canonicalise_attr_loops(self.tree)
         self.shape0_canonicalised = 0 if (os.environ.get("VERIF_NO_SHAPE_CANON") == "1" or ".shape" not in src) else _canonicalise_shape0(self.tree)
         self.subscripts_canonicalised = 0 if os.environ.get("VERIF_NO_SUBSCRIPT_CANON") == "1" else _canonicalise_subscripts(self.tree)
